@@ -80,6 +80,8 @@ def check_scool(case, ctx: Ctx):
             rows = [[r[0], r[1], r[2] + bump, *r[3:]] for r in rows]
         df = pixel_frame(rows, ["count", "x"])
         if case["px_form"] == "frame":
+            # (create_scool documents its pixel tables as sorted by (bin1_id, bin2_id) whatever `ordered` says - it never
+            # sorts: unsorted tables are outside its input domain, see DESIGN 9.3)
             return df
         if case["px_form"] == "dict":
             return {k: df[k].to_numpy() for k in df.columns}
